@@ -154,7 +154,7 @@ func c18ConcScenarios() []concScenario {
 						continue
 					}
 					v := c03Verdict{Detail: map[string]any{}}
-					c03CheckSuccess(&v, m, truths[t], "", false, timeZero, timeZero, false)
+					c03CheckSuccess(&v, m, truths[t], "", c03Clock{Now: world.Now}, false)
 					for _, c := range v.Clauses {
 						if c == "relaystate" && strings.ContainsAny(truths[t].Relay, "\r") {
 							continue
